@@ -93,6 +93,111 @@ func loadPkg(dir string) (*pkgIndex, error) {
 	return px, nil
 }
 
+// typeKey renders a type expression with every UNEXPORTED type declared in this
+// package replaced by its structure (field types of a struct, underlying type
+// otherwise), so that renaming an unexported type does not change the key.
+func (px *pkgIndex) typeKey(t ast.Expr, depth int) string {
+	switch x := t.(type) {
+	case nil:
+		return "?"
+	case *ast.Ident:
+		if ts, ok := px.types[x.Name]; ok && !ast.IsExported(x.Name) && depth < 3 {
+			if st, ok := ts.Type.(*ast.StructType); ok {
+				var fs []string
+				for _, fl := range st.Fields.List {
+					n := len(fl.Names)
+					if n == 0 {
+						n = 1
+					}
+					for i := 0; i < n; i++ {
+						fs = append(fs, px.typeKey(fl.Type, depth+1))
+					}
+				}
+				return "struct{" + strings.Join(fs, ";") + "}"
+			}
+			return px.typeKey(ts.Type, depth+1)
+		}
+		return x.Name
+	case *ast.StarExpr:
+		return "*" + px.typeKey(x.X, depth)
+	case *ast.ParenExpr:
+		return px.typeKey(x.X, depth)
+	case *ast.ArrayType:
+		if x.Len == nil {
+			return "[]" + px.typeKey(x.Elt, depth)
+		}
+		return "[" + px.fc.render(x.Len) + "]" + px.typeKey(x.Elt, depth)
+	case *ast.MapType:
+		return "map[" + px.typeKey(x.Key, depth) + "]" + px.typeKey(x.Value, depth)
+	}
+	return px.fc.render(t)
+}
+
+// fieldLabel names a field of a struct type declared in this package: an
+// exported field by its name, an unexported one by its TYPE (`<T>`, with an
+// ordinal when several unexported fields of the struct share the type), so
+// that renaming an unexported field does not change the label.
+func (px *pkgIndex) fieldLabel(st *ast.StructType, name string) string {
+	if st == nil || ast.IsExported(name) {
+		return name
+	}
+	var key string
+	found := false
+	for _, fl := range st.Fields.List {
+		for _, n := range fl.Names {
+			if n.Name == name {
+				key = px.typeKey(fl.Type, 0)
+				found = true
+			}
+		}
+	}
+	if !found {
+		return name
+	}
+	ord, total := 0, 0
+	for _, fl := range st.Fields.List {
+		for _, n := range fl.Names {
+			if !ast.IsExported(n.Name) && px.typeKey(fl.Type, 0) == key {
+				if n.Name == name {
+					ord = total
+				}
+				total++
+			}
+		}
+	}
+	if total > 1 {
+		return fmt.Sprintf("<%s#%d>", key, ord)
+	}
+	return "<" + key + ">"
+}
+
+func (px *pkgIndex) structOf(typeName string) *ast.StructType {
+	if ts, ok := px.types[typeName]; ok {
+		if st, ok := ts.Type.(*ast.StructType); ok {
+			return st
+		}
+	}
+	return nil
+}
+
+// poolField: the field of Circuit that holds the scratch pool, located by TYPE
+// (any field whose type mentions sync.Pool); name and declared type.
+func (px *pkgIndex) poolField() (string, string) {
+	st := px.structOf("Circuit")
+	if st == nil {
+		return "", ""
+	}
+	for _, fl := range st.Fields.List {
+		t := px.fc.render(fl.Type)
+		if strings.Contains(t, "sync.Pool") {
+			for _, n := range fl.Names {
+				return n.Name, t
+			}
+		}
+	}
+	return "", ""
+}
+
 // refLike: does a declared type carry a reference to memory owned elsewhere?
 func (px *pkgIndex) refLike(t ast.Expr) bool {
 	switch x := t.(type) {
@@ -194,7 +299,7 @@ func (f *frame) origin(e ast.Expr) string {
 		}
 		o := f.origin(x.X)
 		if shared(o) {
-			return o + "." + x.Sel.Name
+			return o + "." + f.selLabel(x)
 		}
 		return o
 	case *ast.FuncLit:
@@ -202,6 +307,10 @@ func (f *frame) origin(e ast.Expr) string {
 		return "fresh"
 	case *ast.CompositeLit:
 		isHandle := f.an.px.fc.render(x.Type) == "Garbled"
+		var hst *ast.StructType
+		if isHandle {
+			hst = f.an.px.structOf("Garbled")
+		}
 		for _, el := range x.Elts {
 			if kv, ok := el.(*ast.KeyValueExpr); ok {
 				o := f.origin(kv.Value)
@@ -209,7 +318,7 @@ func (f *frame) origin(e ast.Expr) string {
 					if !shared(o) {
 						o = "own"
 					}
-					f.an.handle = append(f.an.handle, f.an.px.fc.render(kv.Key)+"="+o)
+					f.an.handle = append(f.an.handle, f.an.px.fieldLabel(hst, f.an.px.fc.render(kv.Key))+"="+o)
 				}
 			} else {
 				f.origin(el)
@@ -226,6 +335,17 @@ func (f *frame) origin(e ast.Expr) string {
 		return f.origin(x.Value)
 	}
 	return ""
+}
+
+// selLabel: the label of the selected field (see fieldLabel); the name itself
+// when the struct type of the operand cannot be resolved.
+func (f *frame) selLabel(x *ast.SelectorExpr) string {
+	if t := f.typeOf(x.X); t != nil {
+		if st, ok := f.under(t).(*ast.StructType); ok {
+			return f.an.px.fieldLabel(st, x.Sel.Name)
+		}
+	}
+	return x.Sel.Name
 }
 
 func (f *frame) isFileScope(id *ast.Ident) bool {
@@ -659,15 +779,36 @@ func (px *pkgIndex) effectsOf(recv, name string) ([]string, []string) {
 	}
 	sort.Strings(res)
 	sort.Strings(an.handle)
-	return abbreviate(res), abbreviate(an.handle)
+	return px.abbreviate(res), px.abbreviate(an.handle)
 }
 
-// abbreviate the two objects every path goes through
-func abbreviate(l []string) []string {
+// scratchTypeKey: the struct the handle's one unexported package-struct pointer
+// field points to (the scratch), as a type key; "" if there is no such field.
+func (px *pkgIndex) scratchTypeKey() string {
+	st := px.structOf("Garbled")
+	if st == nil {
+		return ""
+	}
+	for _, fl := range st.Fields.List {
+		if se, ok := fl.Type.(*ast.StarExpr); ok {
+			if id, ok := se.X.(*ast.Ident); ok && !ast.IsExported(id.Name) && px.structOf(id.Name) != nil {
+				return px.typeKey(id, 0)
+			}
+		}
+	}
+	return ""
+}
+
+// abbreviate the objects every path goes through, named by role
+func (px *pkgIndex) abbreviate(l []string) []string {
 	out := []string{}
+	sk := px.scratchTypeKey()
 	for _, s := range l {
-		s = strings.ReplaceAll(s, "recv:Circuit.garblePool.*.Get()", "SCRATCH")
-		s = strings.ReplaceAll(s, "recv:Circuit.garblePool.*", "POOL")
+		if sk != "" {
+			s = strings.ReplaceAll(s, "*"+sk, "*scratch-struct")
+		}
+		s = strings.ReplaceAll(s, "recv:Circuit.<atomic.Pointer[sync.Pool]>.*.Get()", "SCRATCH")
+		s = strings.ReplaceAll(s, "recv:Circuit.<atomic.Pointer[sync.Pool]>.*", "POOL")
 		out = append(out, s)
 	}
 	return out
@@ -1022,7 +1163,18 @@ func (px *pkgIndex) releaseShape() map[string]any {
 			b.WriteByte(s[i])
 			i++
 		}
-		return strings.TrimSpace(b.String())
+		out := strings.TrimSpace(b.String())
+		// unexported fields of the handle -> their type
+		if st := px.structOf("Garbled"); st != nil {
+			for _, fl := range st.Fields.List {
+				for _, n := range fl.Names {
+					if !ast.IsExported(n.Name) {
+						out = replaceWord(out, "Garbled."+n.Name, "Garbled."+px.fieldLabel(st, n.Name))
+					}
+				}
+			}
+		}
+		return out
 	}
 	res := map[string]any{}
 	var guard []string
@@ -1074,12 +1226,29 @@ func (px *pkgIndex) releaseShape() map[string]any {
 	walk(fd.Body.List, true)
 	sort.Strings(guard)
 	sort.Strings(cleared)
+	ab := func(l []string) []string { return px.abbreviate(l) }
+	guard, cleared = ab(guard), ab(cleared)
+	putText = ab([]string{putText})[0]
 	res["guard_returns_when"] = guard
 	res["puts"] = puts
 	res["put"] = putText
 	res["put_before_clears"] = putAt >= 0 && (firstClear < 0 || putAt < firstClear)
 	res["cleared_after_put"] = cleared
 	return res
+}
+
+func replaceWord(s, old, new string) string {
+	var b strings.Builder
+	for i := 0; i < len(s); {
+		if strings.HasPrefix(s[i:], old) && (i+len(old) >= len(s) || !isIdentChar(s[i+len(old)])) {
+			b.WriteString(new)
+			i += len(old)
+			continue
+		}
+		b.WriteByte(s[i])
+		i++
+	}
+	return b.String()
 }
 
 func isIdentChar(c byte) bool {
@@ -1102,6 +1271,10 @@ func splitOr(e ast.Expr) []ast.Expr {
 // anywhere in the package (method calls, plain reads and writes).
 func (px *pkgIndex) poolFieldOps() []string {
 	ops := map[string]bool{}
+	fieldName, _ := px.poolField()
+	if fieldName == "" {
+		return []string{"<Circuit has no field whose type mentions sync.Pool>"}
+	}
 	for _, af := range px.fc.files {
 		var stack []ast.Node
 		ast.Inspect(af, func(n ast.Node) bool {
@@ -1111,7 +1284,7 @@ func (px *pkgIndex) poolFieldOps() []string {
 			}
 			stack = append(stack, n)
 			se, ok := n.(*ast.SelectorExpr)
-			if !ok || se.Sel.Name != "garblePool" {
+			if !ok || se.Sel.Name != fieldName {
 				return true
 			}
 			op := "plain-access"
@@ -1191,7 +1364,14 @@ func (px *pkgIndex) newFields(fl *ast.FuncLit) []string {
 	}
 	ast.Inspect(fl.Body, func(n ast.Node) bool {
 		cl, ok := n.(*ast.CompositeLit)
-		if !ok || px.fc.render(cl.Type) != "garbledScratch" {
+		if !ok {
+			return true
+		}
+		var cst *ast.StructType
+		if id, isId := cl.Type.(*ast.Ident); isId {
+			cst = px.structOf(id.Name)
+		}
+		if cst == nil {
 			return true
 		}
 		for _, el := range cl.Elts {
@@ -1212,7 +1392,7 @@ func (px *pkgIndex) newFields(fl *ast.FuncLit) []string {
 			if ce, ok := v.(*ast.CallExpr); ok {
 				how = px.fc.render(ce.Fun)
 			}
-			res = append(res, px.fc.render(kv.Key)+"="+how+"@"+where)
+			res = append(res, px.fieldLabel(cst, px.fc.render(kv.Key))+"="+how+"@"+where)
 		}
 		return true
 	})
